@@ -424,6 +424,52 @@ def d5(ctx, prog):
     return n
 
 
+def d6(ctx, prog):
+    """which pair set a two-frame combination enumerates is decided by whether the caller *gave* a second frame: the flag that
+    switches the pair loop between "all pairs i <= j of one frame" and "frame_1 x frame_2" must be the None-test of the
+    constructor's frame_2 argument, taken before that argument is defaulted - not a comparison of frame contents (an explicit
+    frame_2 equal to frame_1 asks for the full product)."""
+    HO = 'scared.preprocesses.high_order._base'
+    ci = prog.need_class(HO, '_CombinationOfTwoFrames')
+    call, setf = ci.methods.get('__call__'), ci.methods.get('_set_frames')
+    if call is None or setf is None:
+        raise AnalysisError('_CombinationOfTwoFrames.__call__/_set_frames not found')
+    # the flag: a self attribute tested in __call__ to choose the slice `[:, i:]` (triangular) versus the whole second chunk
+    flags = set()
+    for n in ast.walk(call.node):
+        if isinstance(n, ast.If):
+            tri = any(isinstance(s, ast.Subscript) and isinstance(s.slice, ast.Tuple) and len(s.slice.elts) == 2 and isinstance(s.slice.elts[1], ast.Slice)
+                      and s.slice.elts[1].lower is not None and s.slice.elts[1].upper is None for b in n.body + n.orelse for s in ast.walk(b))
+            if tri:
+                flags |= astutil.self_attrs_read(n.test)
+    key = f'{ci.key}::pair-set switch'
+    if len(flags) != 1:
+        ctx.undecided('C18-D6', key, f'the switch between triangular and full pair enumeration was not identified (candidates {sorted(flags)})', call.where())
+        return 0
+    flag = next(iter(flags))
+    p2 = setf.params[2] if len(setf.params) > 2 else None
+    defs = [s for f in ci.methods.values() for s in ast.walk(f.node) if isinstance(s, ast.Assign) and self_attr(s.targets[0]) == flag]
+    if len(defs) != 1 or p2 is None:
+        ctx.undecided('C18-D6', key, f'self.{flag} is defined {len(defs)} times', ci.mod.relpath)
+        return 0
+    d = defs[0]
+    txt = norm(d.value).replace(' ', '')
+    # position: before any rebinding of the parameter
+    body = list(setf.node.body)
+    idx = next((i for i, st in enumerate(body) if any(x is d for x in ast.walk(st))), None)
+    rebound_before = idx is not None and any(isinstance(x, ast.Assign) and any(norm(t) == p2 for t in x.targets) for st in body[:idx] for x in ast.walk(st))
+    if txt in (f'{p2}isNone', f'Noneis{p2}'):
+        ctx.check(idx is not None and not rebound_before, 'C18-D6', key, f'self.{flag} tests `{p2} is None` after `{p2}` was given its default: it is always false and the one-frame pair set is never used',
+                  f'self.{flag} = ({p2} is None), taken on the caller\'s argument before it is defaulted', setf.where(d))
+    elif any(isinstance(c, ast.Call) and norm(c.func).split('.')[-1] in ('array_equal', 'all', 'allclose', 'array_equiv') for c in ast.walk(d.value)) or \
+            (isinstance(d.value, ast.Compare) and any(isinstance(o, (ast.Eq, ast.Is)) for o in d.value.ops) and 'frame' in txt and 'None' not in txt):
+        ctx.fail('C18-D6', key, f'self.{flag} = `{norm(d.value)[:70]}` compares the frames themselves: an explicit frame_2 that designates the same points as frame_1 gets the '
+                 f'triangular i <= j pair set instead of the documented frame_1 x frame_2', setf.where(d) if d in list(ast.walk(setf.node)) else ci.mod.relpath)
+    else:
+        ctx.undecided('C18-D6', key, f'self.{flag} = `{norm(d.value)[:70]}` not understood', ci.mod.relpath)
+    return 1
+
+
 def run(ctx, prog):
     ctx.rule('C18-D1', 'arithmetic on traces-derived values only after promotion (astype(join) / dtype=join / float partner computed with the join / FFT); helpers judged per call site')
     ctx.rule('C18-D2', 'the promotion dtype is numpy.result_type/promote_types of the traces dtype and the precision, never builtin max()')
@@ -439,5 +485,7 @@ def run(ctx, prog):
     d4(ctx, prog)
     ctx.rule('C18-D5', 'frame pass-through: list / array frames are stored as given (or an order-preserving copy), slice -> range(start or 0, stop, step or 1), int -> [int]; stored frames index the sample axis')
     ctx.floor('frame configuration stores', d5(ctx, prog), 3)
+    ctx.rule('C18-D6', 'the switch between the one-frame pair set (i <= j) and frame_1 x frame_2 is the None-test of the caller\'s frame_2 argument, taken before defaulting')
+    d6(ctx, prog)
     ctx.floor('preprocess entry points', len(eps), 20)
     ctx.floor('promotion dtype computations', n2, 9)
